@@ -52,6 +52,8 @@ func (cr *concRun) analyse(out *ConcOutcome) {
 	cr.checkStaleLoad()
 	cr.checkCompute()
 	cr.checkStats()
+	cr.checkSweep()
+	cr.checkRefreshTrigger()
 	cr.countOverlaps(out)
 	if cr.opts.Lin {
 		cr.checkLin(out)
@@ -173,8 +175,14 @@ func (cr *concRun) checkBoundAndViews() {
 	}
 	// C05: derived views
 	if cfg.Bound == "weight" {
-		if cr.finalWSize != sum {
-			cr.fail(P("C05"), "views.weighted-size", -1, "WeightedSize()=%d but the entries present weigh %d", cr.finalWSize, sum)
+		// expired-but-unswept entries (deadline within the last tick) are still tracked by the policy
+		// but not iterated: with expiry the physically present weight is the upper bound
+		hi := sum
+		if cfg.withExpiry() {
+			hi = cr.auditFinal.TableWeight
+		}
+		if cr.finalWSize < sum || cr.finalWSize > hi {
+			cr.fail(P("C05"), "views.weighted-size", -1, "WeightedSize()=%d but the entries present weigh %d (physically present %d)", cr.finalWSize, sum, hi)
 		}
 	} else if cr.finalWSize != 0 {
 		cr.fail(P("C05"), "views.weighted-size", -1, "WeightedSize()=%d for an unweighted cache", cr.finalWSize)
@@ -1047,4 +1055,47 @@ func (cr *concRun) dumpTimeline() {
 		fmt.Printf("audit(final): %+v\n", *cr.auditFinal)
 	}
 	fmt.Printf("live at end: %v\n", cr.liveAtEnd)
+}
+
+// checkSweep (C13, concurrent form): after all writes returned, the clock moved on by more than one
+// tick and CleanUp ran, no entry whose deadline lies more than a tick in the past may physically remain.
+func (cr *concRun) checkSweep() {
+	if !cr.opts.SweepCheck || cr.auditFinal == nil {
+		return
+	}
+	for _, e := range cr.rawAfterSweep {
+		cr.probe["sweep-entries-examined"]++
+		if e.ExpiresAtNano < cr.sweepNow-tickSlack {
+			cr.fail(P("C13"), "sweep.not-swept", e.Key, "after CleanUp at clock %d key %d (value %d, deadline %d, %d ns overdue) is still physically present", cr.sweepNow, e.Key, e.Value, e.ExpiresAtNano, cr.sweepNow-e.ExpiresAtNano)
+		}
+	}
+	exp := 0
+	for _, ev := range cr.r.Events {
+		if ev.Atomic && ev.Cause == otter.CauseExpiration {
+			exp++
+		}
+	}
+	cr.probe["sweep-expiration-events"] += exp
+}
+
+// checkRefreshTrigger (C11, concurrent form): the Get that finds a stale entry and hands the reload
+// to the executor returns the value that was cached at that moment, i.e. the old value the reload
+// was given - never the reloaded one.
+func (cr *concRun) checkRefreshTrigger() {
+	for _, l := range cr.r.Loads {
+		if !l.Reload || l.Bulk || l.Op == nil || l.Op.Kind != "load" || len(l.Olds) != 1 {
+			continue
+		}
+		for _, h := range cr.hist {
+			if h.Op == l.Op && h.Done && !h.Res.Panic {
+				cr.probe["refresh-triggering-gets"]++
+				if h.Res.Err != "" || h.Res.V != l.Olds[0] {
+					cr.fail(P("C11"), "refresh.trigger-value", h.Op.K, "Get of key %d triggered a reload of old value %d but returned (%d,%q)", h.Op.K, l.Olds[0], h.Res.V, h.Res.Err)
+				}
+				if nv, ok := l.Ret[h.Op.K]; ok && nv == h.Res.V {
+					cr.fail(P("C11"), "refresh.returned-reloaded", h.Op.K, "Get of key %d returned the reloaded value %d", h.Op.K, nv)
+				}
+			}
+		}
+	}
 }
